@@ -21,15 +21,16 @@ ONE_WEEK == 604800
 
 Flip(dir) == IF dir = "add" THEN "rem" ELSE "add"
 
-(* handle.rs::get_input_price_with_reserves *)
+(* handle.rs::get_input_price_with_reserves.  The invariant is the exact product x*y (fix F12: it
+   used to be floor(x*y/D)*D, which let the exact product shrink inside one floor bucket). *)
 InputPrice(D, dir, q, x, y) ==
   IF q = 0 THEN 0
-  ELSE LET k  == (x * y) \div D
+  ELSE LET k  == x * y
            xa == IF dir = "add" THEN x + q ELSE CSub(x, q)
        IN IF Bad(xa) \/ xa = 0 THEN FAIL
-          ELSE LET ya     == (k * D) \div xa
+          ELSE LET ya     == k \div xa
                    bought == Abs(ya - y)
-                   rem    == (k * D) - xa * ((k * D) \div xa)
+                   rem    == k % xa
                IN IF rem # 0
                   THEN IF dir = "add" THEN CSub(bought, 1) ELSE bought + 1
                   ELSE bought
@@ -37,12 +38,12 @@ InputPrice(D, dir, q, x, y) ==
 (* handle.rs::get_output_price_with_reserves *)
 OutputPrice(D, dir, b, x, y) ==
   IF b = 0 THEN 0
-  ELSE LET k  == (x * y) \div D
+  ELSE LET k  == x * y
            ya == IF dir = "add" THEN y + b ELSE CSub(y, b)
        IN IF Bad(ya) \/ ya = 0 THEN FAIL
-          ELSE LET xa   == (k * D) \div ya
+          ELSE LET xa   == k \div ya
                    sold == Abs(xa - x)
-                   rem  == (k * D) - ya * ((k * D) \div ya)
+                   rem  == k % ya
                IN IF rem # 0
                   THEN IF dir = "add" THEN CSub(sold, 1) ELSE sold + 1
                   ELSE sold
